@@ -138,7 +138,8 @@ func run(e *core.Env) {
 	n := 2 + tp.Intn(2)
 	universe := []string{"", "uni-a"}[tp.Intn(2)]
 	secret := ""
-	if universe != "" && tp.Chance(1, 2) {
+	if tp.Chance(1, 2) {
+		// (also with the default universe: a secret is a valid setting there too)
 		secret = "topsecret"
 	}
 	idBase := 8 * tp.Intn(2)
